@@ -211,6 +211,7 @@ func c14Scenarios() []c14Scn {
 		{"xzW|xzR", []c14Body{c14XZWriter(small, t[50:200]), c14XZReader(stream)}},
 		{"lzma2W(Flush)|lzma2R", []c14Body{c14LZMA2Writer(lzma.Writer2Config{DictCap: 4096}, t[:130]), c14LZMA2Reader(l2)}},
 		{"xzW|xzR|lzmaW", []c14Body{c14XZWriter(small, t[:110]), c14XZReader(stream2), c14LZMAWriter(lzma.WriterConfig{DictCap: 4096, Matcher: lzma.BinaryTree}, t[20:90], false)}},
+		{"xzW(4 KiB dict)|xzW(2 MiB dict)|then small again", []c14Body{c14XZWriter(small, t[:140]), c14XZWriter(xz.WriterConfig{DictCap: 2 << 20}, t[30:150])}},
 		{"lzmaW|lzmaW same props (bufio)", []c14Body{c14LZMAWriter(lzma.WriterConfig{DictCap: 4096}, t[:90], false), c14LZMAWriter(lzma.WriterConfig{DictCap: 4096}, t[10:100], false)}},
 	}
 }
